@@ -469,19 +469,28 @@ class Feedback:
 
     @classmethod
     def override(cls, report=MAIN_REPORT, **fields):
-        if cls._override_backups is None:
+        # Each class keeps its own backups; a subclass must not share (and
+        # later restore from) the dictionary of an overridden parent class
+        if cls.__dict__.get('_override_backups') is None:
             cls._override_backups = {}
         for field, new_value in fields.items():
             if field not in cls._override_backups:
-                cls._override_backups[field] = getattr(cls, field)
+                # Remember whether the class defined the field itself or
+                # inherited it, so that an inherited field is inherited again
+                cls._override_backups[field] = (field in cls.__dict__,
+                                                cls.__dict__.get(field))
             setattr(cls, field, new_value)
         report.override_feedback(cls)
 
     @classmethod
     def _restore_overrides(cls):
-        for field, old_value in cls._override_backups.items():
-            setattr(cls, field, old_value)
-        cls._override_backups.clear()
+        backups = cls.__dict__.get('_override_backups') or {}
+        for field, (was_own_field, old_value) in backups.items():
+            if was_own_field:
+                setattr(cls, field, old_value)
+            elif field in cls.__dict__:
+                delattr(cls, field)
+        backups.clear()
 
 
     @classmethod
